@@ -200,8 +200,12 @@ func genTarget(t *rapid.T, label string, wantEscape int) string {
 	switch {
 	case k < wantEscape:
 		return rapid.SampledFrom(escapeTargets).Draw(t, label+"tesc")
-	case k < wantEscape+45:
+	case k < wantEscape+38:
 		return rapid.SampledFrom(insideTargets).Draw(t, label+"tin")
+	case k < wantEscape+48:
+		// a pure run of "..": inside or outside depending on where the link sits
+		return strings.TrimSuffix(strings.Repeat("../", rapid.IntRange(1, 4).Draw(t, label+"ups")), "/") +
+			rapid.SampledFrom([]string{"", "", "/a", "/dst-evil/x", "/outside/f"}).Draw(t, label+"upstail")
 	default:
 		// compose: through another (possible) link name, then up
 		first := rapid.SampledFrom(simpleSegs).Draw(t, label+"t1")
@@ -291,6 +295,9 @@ func GenCase(t *rapid.T, linkWeight, escapeWeight int, withFaults bool, withAllo
 	c.Entries = rapid.SliceOfN(rapid.Custom(func(t *rapid.T) tarx.Entry {
 		return GenEntry(t, "", linkWeight, escapeWeight)
 	}), 1, 8).Draw(t, "entries")
+	if rapid.IntRange(0, 99).Draw(t, "scenario?") < 18 {
+		c.Entries = scenario(t, c.Entries)
+	}
 	// cooperation: later entries reuse, extend or shorten the names of earlier
 	// ones, and link targets pass through earlier entries
 	coop := rapid.SliceOfN(rapid.IntRange(0, 99), 8, 8).Draw(t, "coop")
@@ -312,21 +319,25 @@ func GenCase(t *rapid.T, linkWeight, escapeWeight int, withFaults bool, withAllo
 			continue
 		}
 		p2 := pick[(i+1)%8]
+		other := strings.Trim(c.Entries[pick[(i+2)%8]%i].Name, "/")
 		switch {
-		case c.Entries[i].Type == "symlink" && coop[i] < 30:
+		case c.Entries[i].Type == "symlink" && coop[i] < 28:
 			depth := strings.Count(strings.Trim(c.Entries[i].Name, "/"), "/")
 			c.Entries[i].Link = strings.Repeat("../", depth) + strings.TrimPrefix(base, "/") + "/" +
 				[]string{"..", "../..", "../dst-evil/x", "x", "../outside/f", "../dst-evil", "../a", "."}[p2%8]
-		case coop[i] < 50:
+		case coop[i] < 30:
 			c.Entries[i].Name = base
-		case coop[i] < 64:
+		case coop[i] < 41:
 			c.Entries[i].Name = base + "/" + simpleSegs[p2%len(simpleSegs)]
-		case coop[i] < 69:
+		case coop[i] < 45:
 			if k := strings.LastIndex(base, "/"); k > 0 {
 				c.Entries[i].Name = base[:k]
 			}
-		case coop[i] < 76:
+		case coop[i] < 51:
 			c.Entries[i].Name = "zz/../" + strings.TrimPrefix(base, "/") + []string{"", "/x", "/a"}[p2%3]
+		case coop[i] < 57 && other != "" && !strings.Contains(other, ".."):
+			// below an earlier (link) entry, along a path that exists elsewhere in dst
+			c.Entries[i].Name = strings.TrimPrefix(base, "/") + "/" + other + []string{"", "/x", "/esc"}[p2%3]
 		}
 	}
 	c.Fault.Kind = "none"
@@ -339,7 +350,7 @@ func GenCase(t *rapid.T, linkWeight, escapeWeight int, withFaults bool, withAllo
 		}
 	}
 	if withAllow && rapid.IntRange(0, 3).Draw(t, "allow?") == 0 {
-		c.Allow = []string{rapid.SampledFrom([]string{"{R}/l1/l2/l3/outside", "../outside", "{R}/l1/l2/l3/outside/f", "../dst-evil", "/etc", "{R}/l1/l2/l3/out"}).Draw(t, "allow")}
+		c.Allow = []string{rapid.SampledFrom([]string{"{R}/l1/l2/l3/outside", "../outside", "{R}/l1/l2/l3/outside/f", "../dst-evil", "/etc", "{R}/l1/l2/l3/out", "../out", "../dst-ev", "../outside/", "../dst", "{DST}", "../outside/d"}).Draw(t, "allow")}
 	}
 	return c
 }
@@ -348,4 +359,78 @@ func GenCase(t *rapid.T, linkWeight, escapeWeight int, withFaults bool, withAllo
 func Exists(p string) bool {
 	_, err := os.Lstat(p)
 	return err == nil
+}
+
+
+// scenario plants one of the known attack families (with drawn variations)
+// in front of / among the randomly drawn entries, so that their neighbourhood
+// is explored far more often than independent draws would reach it.
+func scenario(t *rapid.T, rest []tarx.Entry) []tarx.Entry {
+	seg := func(l string) string { return rapid.SampledFrom(simpleSegs).Draw(t, l) }
+	ent := func(name, typ, link string) tarx.Entry {
+		e := tarx.Entry{Name: name, Type: typ, Link: link, Mode: rapid.SampledFrom(modes).Draw(t, "smode"),
+			Sec: rapid.SampledFrom([]int64{0, 1400000000, 4102444800}).Draw(t, "ssec"), Raw: rapid.Bool().Draw(t, "sraw")}
+		if typ == "file" {
+			e.Body = "IN:scenario"
+		}
+		return e
+	}
+	third := func(name string) tarx.Entry {
+		switch rapid.IntRange(0, 3).Draw(t, "third") {
+		case 0:
+			return ent(name, "file", "")
+		case 1:
+			return ent(name, "dir", "")
+		default:
+			ups := strings.TrimSuffix(strings.Repeat("../", rapid.IntRange(1, 4).Draw(t, "tups")), "/")
+			return ent(name, "symlink", ups+rapid.SampledFrom([]string{"", "/dst-evil/x", "/outside", "/a"}).Draw(t, "ttail"))
+		}
+	}
+	var plant []tarx.Entry
+	switch rapid.IntRange(0, 4).Draw(t, "family") {
+	case 0: // relocation: an entry below a link, along a path that really exists elsewhere
+		d, n, l := seg("d"), seg("n"), seg("l")
+		linkName, linkTarget := n+"/"+l, ".."
+		if rapid.Bool().Draw(t, "toplink") {
+			linkName, linkTarget = l, "."
+		}
+		plant = []tarx.Entry{ent(d+"/", "dir", ""), ent(linkName, "symlink", linkTarget),
+			third(linkName + "/" + d + "/" + seg("e"))}
+	case 1: // a link made escaping by way of another link, then something at or below it
+		a, b := seg("a"), seg("b")
+		if a == b {
+			b = b + "2"
+		}
+		tail := rapid.SampledFrom([]string{"/..", "/../..", "/../dst-evil/x", "/../dst-evil", "/../outside"}).Draw(t, "viatail")
+		plant = []tarx.Entry{ent(a, "symlink", "."), ent(b, "symlink", a+tail),
+			third(rapid.SampledFrom([]string{b, b + "/x", "zz/../" + b + "/x", "./" + b}).Draw(t, "at"))}
+	case 2: // sibling-prefix target, then a file at the link's name
+		l := seg("l")
+		plant = []tarx.Entry{ent(l, "symlink", rapid.SampledFrom([]string{"../dst-evil/x", "../dst-evil", "{DST}-evil/x", "../dstX", "{DST}X"}).Draw(t, "sib")),
+			third(rapid.SampledFrom([]string{l, l + "/new", "zz/../" + l}).Draw(t, "at2"))}
+	case 3: // boundary names: the cleaned name is exactly dst, or exactly dst's parent
+		name := rapid.SampledFrom([]string{"..", "../", "./..", "a/../..", "../.", "/..", ".", "./", "a/..", "../dst", "../dst/", "../dst/a"}).Draw(t, "bname")
+		plant = []tarx.Entry{third(name)}
+		plant[0].Name = name
+		if plant[0].Type == "dir" && !strings.HasSuffix(name, "/") && rapid.Bool().Draw(t, "dirslash") {
+			plant[0].Name = name + "/"
+		}
+	default: // directory entry later turned into / preceded by a link of the same name
+		d := seg("d")
+		plant = []tarx.Entry{ent(d+"/", "dir", ""), ent(seg("s")+"/up", "symlink", ".."),
+			ent(d, "symlink", rapid.SampledFrom([]string{"..", "s/up/..", "a/up/..", "../outside"}).Draw(t, "late"))}
+		if rapid.Bool().Draw(t, "swap") {
+			plant[0], plant[2] = plant[2], plant[0]
+		}
+	}
+	// interleave with up to three of the random entries
+	if len(rest) > 3 {
+		rest = rest[:3]
+	}
+	out := append([]tarx.Entry{}, plant...)
+	for _, r := range rest {
+		pos := rapid.IntRange(0, len(out)).Draw(t, "pos")
+		out = append(out[:pos], append([]tarx.Entry{r}, out[pos:]...)...)
+	}
+	return out
 }
